@@ -1903,6 +1903,96 @@ fn ctl_obs<F: VF>(ctx: &mut Ctx) {
         });
     }
 
+    // --- topology: the same looking table occurring NON-consecutively ([T0, T1, T0]); every
+    // consumer of the declaration (num_ctl_helpers_zs_all, CtlCheckVars::from_proof,
+    // verify_cross_table_lookups) treats all occurrences of a table as one group with one Z
+    ctx.guarded("C10.S.stark.ctl.data.interleaved", F_CTL_GEN, |ctx| {
+        if F::SYMBOLIC {
+            crate::reset();
+        }
+        let deg = 3usize;
+        let (ca, fa) = ctl_cols_a::<F>();
+        let (cb, fb) = ctl_cols_b::<F>();
+        let (beta, gamma) = (F::var("beta"), F::var("gamma"));
+        let al = [F::var("alpha0"), F::var("alpha1")];
+        let fb0: [u64; 4] = [0, 1, 0, 0];
+        let fb1: [u64; 4] = [0, 0, 1, 0];
+        let t0: Vec<Vec<F>> = (0..4).map(|j| vec![F::var(&format!("v0_{j}")), F::var(&format!("v1_{j}")), F::from_canonical_u64(fb0[j])]).collect();
+        // (T1's cells are concrete except the selected row's first cell: keeps the common denominator small)
+        let t1: Vec<Vec<F>> = (0..4).map(|j| vec![if fb1[j] == 1 { F::var(&format!("w0_{j}")) } else { F::from_canonical_u64(1000 + j as u64) }, F::from_canonical_u64(2000 + 7 * j as u64), F::from_canonical_u64(fb1[j])]).collect();
+        let mut sel: Vec<(F, F)> = vec![];
+        for j in 0..4 {
+            if fb0[j] == 1 {
+                sel.push((t0[j][0], t0[j][1]));
+                sel.push((t0[j][1], t0[(j + 1) % 4][0]));
+            }
+            if fb1[j] == 1 {
+                sel.push((t1[j][0], t1[j][1]));
+            }
+        }
+        let looked: Vec<Vec<F>> = (0..4).map(|k| if k < sel.len() { vec![sel[k].0, sel[k].1, F::ONE] } else { vec![F::var(&format!("junk0_{k}")), F::var(&format!("junk1_{k}")), F::ZERO] }).collect();
+        let ctls = vec![CrossTableLookup::new(
+            vec![TableWithColumns::new(0, ca.clone(), fa.clone()), TableWithColumns::new(1, ca.clone(), fa.clone()), TableWithColumns::new(0, cb.clone(), fb.clone())],
+            TableWithColumns::new(2, ca.clone(), fa.clone()),
+        )];
+        let to_polys = |rows: &Vec<Vec<F>>| -> Vec<PolynomialValues<F>> { (0..3).map(|c| PolynomialValues::new(rows.iter().map(|r| r[c]).collect())).collect() };
+        let chs = GrandProductChallengeSet { challenges: vec![GrandProductChallenge { beta, gamma }] };
+        let traces = [to_polys(&t0), to_polys(&t1), to_polys(&looked)];
+        let res = std::panic::catch_unwind(std::panic::AssertUnwindSafe(|| hk::cross_table_lookup_data::<F, 2, 3>(&traces, &ctls, &chs, deg)));
+        let eval_table = |rows: &Vec<Vec<F>>, helpers: &Vec<PolynomialValues<F>>, z: &PolynomialValues<F>, cols: Vec<&[Column<F>]>, filts: Vec<Filter<F>>| -> Vec<Vec<F>> {
+            let m = rows.len();
+            let g = F::primitive_root_of_unity(m.trailing_zeros() as usize);
+            (0..m)
+                .map(|j| {
+                    let jn = (j + 1) % m;
+                    let vars = <CtlS<F, 2> as Stark<F, 2>>::EvaluationFrame::<F, F, 1>::from_values(&rows[j], &rows[jn], &[]);
+                    let cv = hk::ctl_check_vars::<F, F, F, 1>(helpers.iter().map(|h| h.values[j]).collect(), z.values[j], z.values[jn], GrandProductChallenge { beta, gamma }, cols.clone(), filts.clone());
+                    let mut cons = ConstraintConsumer::<F>::new(al.to_vec(), pow(g, j) - pow(g, m - 1), if j == 0 { F::ONE } else { F::ZERO }, if j == m - 1 { F::ONE } else { F::ZERO });
+                    hk::eval_cross_table_lookup_checks::<F, F, F, CtlS<F, 2>, 2, 1>(&vars, &[cv], &mut cons, deg);
+                    cons.accumulators()
+                })
+                .collect()
+        };
+        let mut goals = vec![A::Bool(res.is_ok())];
+        let mut shape = String::from("panicked");
+        if let Ok(data) = res {
+            shape = format!("{:?}", data.iter().map(|d| d.iter().map(|(h, _)| h.len()).collect::<Vec<_>>()).collect::<Vec<_>>());
+            let ok_shape = data.len() == 3 && data[0].len() == 1 && data[1].len() == 1 && data[2].len() == 1 && data[0][0].0.len() == 1 && data[1][0].0.is_empty() && data[2][0].0.is_empty();
+            goals.push(A::Bool(ok_shape));
+            if ok_shape {
+                { for a in eval_table(&t0, &data[0][0].0, &data[0][0].1, vec![&ca[..], &cb[..]], vec![fa.clone(), fb.clone()]).iter().flatten() {
+                    goals.push(eq(*a, F::ZERO));
+                } }
+                { for a in eval_table(&t1, &data[1][0].0, &data[1][0].1, vec![&ca[..]], vec![fa.clone()]).iter().flatten() {
+                    goals.push(eq(*a, F::ZERO));
+                } }
+                { for a in eval_table(&looked, &data[2][0].0, &data[2][0].1, vec![&ca[..]], vec![fa.clone()]).iter().flatten() {
+                    goals.push(eq(*a, F::ZERO));
+                } }
+                // first-row openings: each equals the sum of 1/combine over its selected tuples
+                // (three separate goals: one common denominator for all three tables is too large
+                // for the normaliser); the looked table holds exactly the union of those tuples,
+                // so Z_T0[0] + Z_T1[0] == Z_T2[0]
+                let inv = |a: F, b: F| F::assume_ne(|| comb(&[a, b], beta, gamma).inverse());
+                let r0 = inv(t0[1][0], t0[1][1]) + inv(t0[1][1], t0[2][0]);
+                let r1 = inv(t1[2][0], t1[2][1]);
+                {
+                    goals.push(eq(data[0][0].1.values[0], r0));
+                    goals.push(eq(data[1][0].1.values[0], r1));
+                }
+                {
+                    goals.push(eq(data[2][0].1.values[0], r0 + r1));
+                }
+            }
+        }
+        ctx.add(
+            Ob::new("C10.S.stark.ctl.data.interleaved.satisfy", F_CTL_GEN, format!("one CTL with looking tables [T0 (set A), T1 (set A), T0 (set B)] into T2; 4-row looking tables with symbolic cells and filter bits {fb0:?} / {fb1:?}, 4-row looked table holding exactly the three selected tuples and a filtered-out junk row; constraint degree {deg}; helper-column counts per table observed: {shape}"))
+                .sample("cross_table_lookup_data yields ONE running sum per table (T0: both column sets, one helper column), the columns satisfy eval_cross_table_lookup_checks on every row of every table, and Z_T0[0] + Z_T1[0] == Z_T2[0]")
+                .goals(goals)
+                .key("ctl:repeated-looking-table-not-grouped"),
+        );
+    });
+
     // --- verify_cross_table_lookups in accept-path mode
     ctx.guarded("C10.S.stark.ctl.verify", F_CTL_V, |ctx| {
         if F::SYMBOLIC {
